@@ -419,7 +419,7 @@ func (in *Interp) errorString(iv IfaceV) (string, bool) {
 	if iv.T == nil {
 		return "", false
 	}
-	m := in.Prog.LookupMethod(iv.T, nil, "Error")
+	m := in.lookupMethod(iv.T, nil, "Error")
 	if m == nil {
 		return "", false
 	}
@@ -443,7 +443,7 @@ func (in *Interp) prepCall(fr *frame, c *ssa.CallCommon, d *deferred) {
 			d.args = nil
 			return
 		}
-		m := in.Prog.LookupMethod(recv.T, c.Method.Pkg(), c.Method.Name())
+		m := in.lookupMethod(recv.T, c.Method.Pkg(), c.Method.Name())
 		d.fn = m
 		args = append(args, recv.V)
 	} else {
@@ -586,9 +586,20 @@ func (in *Interp) doCall(fr *frame, c *ssa.CallCommon) (Value, *iPanic) {
 	if c.IsInvoke() {
 		recv, ok := in.get(fr, c.Value).(IfaceV)
 		if !ok || recv.T == nil {
+			// metrics/logging interfaces are never initialised (their packages are no-ops)
+			if n, ok := c.Value.Type().(*types.Named); ok && n.Obj().Pkg() != nil && noopPkg(n.Obj().Pkg().Path()) {
+				res := c.Signature().Results()
+				switch res.Len() {
+				case 0:
+					return nil, nil
+				case 1:
+					return in.zero(res.At(0).Type()), nil
+				}
+				return in.zero(res), nil
+			}
 			return nil, in.mkPanic("nil-deref", "method call on nil interface")
 		}
-		m := in.Prog.LookupMethod(recv.T, c.Method.Pkg(), c.Method.Name())
+		m := in.lookupMethod(recv.T, c.Method.Pkg(), c.Method.Name())
 		if m == nil {
 			panic(unsupported{fmt.Sprintf("method %s not found on %s", c.Method.Name(), recv.T)})
 		}
@@ -1128,4 +1139,17 @@ func (in *Interp) unop(fr *frame, x *ssa.UnOp) (Value, *iPanic) {
 		return v, nil
 	}
 	panic(unsupported{"unop " + x.Op.String()})
+}
+
+
+// lookupMethod is Prog.LookupMethod that returns nil instead of panicking when T has no such method.
+func (in *Interp) lookupMethod(T types.Type, pkg *types.Package, name string) *ssa.Function {
+	if T == nil {
+		return nil
+	}
+	sel := in.Prog.MethodSets.MethodSet(T).Lookup(pkg, name)
+	if sel == nil {
+		return nil
+	}
+	return in.Prog.MethodValue(sel)
 }
